@@ -13,7 +13,9 @@ silence a finding.  Deliberate exclusions (DESIGN.md sections 4, 5 and the build
   * patterns with a loop whose body can match the empty string (known finding KF-EMPTY-LOOP,
     replayed separately);
   * counts above 300 in front of commands whose work is proportional to the count (inserts, puts,
-    repeats): that is linear time, not a hang.
+    repeats), counts of a million and more in front of motions that loop count times, shell commands
+    in the body of :g (one process per matching line): that is work proportional to what was asked
+    for, not a hang.
 Every choice comes from the Rng that is passed in (SplitMix64, vlib.Rng).
 """
 
@@ -230,6 +232,8 @@ def simple_cmd(r, nlines, depth):
     """One ex command without a text block: str."""
     a = address(r, nlines)
     t = r.below(60)
+    if depth > 0 and t in (45, 46, 47, 48, 49, 55):
+        t = 5               # no shell command in the body of :g (one process per matching line: time grows with the buffer)
     if t < 4:
         return a + 'd' + r.choice(['', ' ', ' a', ' x'])
     if t < 7:
